@@ -26,6 +26,19 @@ class Violation(Exception):
     """The library under test broke the clause on this case."""
 
 
+def _load_signatures():
+    import json as _json
+    path = os.path.join(os.path.dirname(os.path.abspath(__file__)), "signatures.json")
+    try:
+        with open(path) as f:
+            return _json.load(f)
+    except Exception:  # noqa
+        return {}
+
+
+SIGNATURES = _load_signatures()
+
+
 class Inconclusive(Exception):
     """A case that could not be evaluated for lack of resources (memory); counted, never reported as a violation."""
 
@@ -45,6 +58,7 @@ class Ctx(object):
         self.strict = strict  # strict: ignore known-finding routing
         self.kf_open = frozenset(kf_open)
         self.notes = {}
+        self.form = "kw"
 
     # -- classification -------------------------------------------------
     def cls(self, *labels):
@@ -77,7 +91,19 @@ class Ctx(object):
 
     def lib(self, fn, *args, **kwargs):
         """Call the library; an exception there is a violation (the clause
-        promises a value for this input)."""
+        promises a value for this input).
+
+        In one case out of three (self.form == 'pos', decided by the case's hash) keyword arguments that are the next
+        positional-or-keyword parameters of the PINNED signature (pbt/signatures.json, recorded from the pinned tree, not
+        read from the code under test) are passed positionally instead: the two spellings are the same request."""
+        if self.form == "pos" and kwargs:
+            names = SIGNATURES.get("%s.%s" % (getattr(fn, "__module__", ""), getattr(fn, "__qualname__", "")))
+            if names is not None:
+                nxt = names[len(args):len(args) + len(kwargs)]
+                if len(nxt) == len(kwargs) and set(nxt) == set(kwargs):
+                    args = tuple(args) + tuple(kwargs[n] for n in nxt)
+                    kwargs = {}
+                    self.cls("call=positional")
         try:
             with warnings.catch_warnings():
                 warnings.simplefilter("ignore")
@@ -90,6 +116,15 @@ class Ctx(object):
         except Exception as e:  # noqa
             name = getattr(fn, "__name__", str(fn))
             raise Violation("%s raised %s: %s" % (name, type(e).__name__, str(e)[:200]))
+
+    def libf(self, form, fn, order, *args, **kwargs):
+        """Call the library with its optional arguments spelled by keyword (form 'kw') or, when form is 'pos' and the given
+        keywords are the first len(kwargs) names of `order` (the documented parameter order after the required arguments),
+        positionally in that order.  The two spellings are the same request."""
+        if form == "pos" and kwargs and set(kwargs) == set(order[:len(kwargs)]):
+            self.cls("call=positional")
+            return self.lib(fn, *(tuple(args) + tuple(kwargs[k] for k in order[:len(kwargs)])))
+        return self.lib(fn, *args, **kwargs)
 
     def raises(self, exc_types, fn, *args, **kwargs):
         """The clause promises rejection."""
@@ -300,6 +335,11 @@ def _default(o):
 
 def canon(case):
     return json.dumps(case, sort_keys=True, default=_default, allow_nan=True)
+
+
+def call_form(case, share=3):
+    """'pos' for one case in `share` (decided by the case's hash, so replay files reproduce it), else 'kw'."""
+    return "pos" if int(case_hash(case)[:4], 16) % share == 0 else "kw"
 
 
 def case_hash(case):
